@@ -7,12 +7,13 @@ history correspondence (Tie B): the same op lines run on the Lean driver and on 
 from vlib import histcheck
 
 MODULE = "TriompheModel.Props.C07"
+EXTRA = ["TriompheModel.Props.C07Iter"]
 TAGS = ['C07']
 WEIGHTS = {'iter': 26, 'cb': 22, 'makeMut': 10, 'makeUnique': 6, 'unwrapOrClone': 8, 'intoThin': 6, 'writeSlot': 8}
 
 
 def run(ctx):
-    histcheck.run(ctx, MODULE, WEIGHTS, TAGS)
+    histcheck.run(ctx, MODULE, WEIGHTS, TAGS, lean_extra=EXTRA)
 
 
 def replay(ctx, path):
